@@ -149,8 +149,15 @@ func mergeRefs(ab *cmdsPair, a, b *cmd) {
 			for _, b := range bl {
 				b.name = storeName
 			}
-		} else if _, found := ab.a.lookup[prefix][bName]; found && ab.b.isRaw {
-			errlog.Abort("Name clash for '%s %s' from raw", prefix, bName)
+		} else if ab.b.isRaw {
+			if _, found := ab.a.lookup[prefix][bName]; found {
+				errlog.Abort("Name clash for '%s %s' from raw", prefix, bName)
+			}
+			// Has already been merged into object of Netspoc.
+			if isReferenced[refCmd] && refCmd.name != bName {
+				errlog.Abort("Must reference '%s %s' only once in raw",
+					prefix, bName)
+			}
 		}
 		isReferenced[refCmd] = true
 		refPair := *ab
